@@ -85,6 +85,59 @@ def origin(cfg, local, argc, depth=8, seen=None, locals_ty=None):
     return "unknown"
 
 
+def root_entry_reset(ck, facts, cg, R):
+    """-> (description, None) when RecursiveContext::solve_root_goal clears the stack and rolls the search graph back to its first node
+    before it calls solve_goal, on every path, and solve_root_goal is the only way into solve_goal from outside a running solve."""
+    root = facts.body(RC + "solve_root_goal")
+    if root is None:
+        return None, "solve_root_goal not found"
+    cfg = root.cfg
+    sgc = cfg.call_blocks(RC + "solve_goal")
+    clear = cfg.call_blocks("Stack::clear")
+    rb = cfg.call_blocks("SearchGraph::<K, V>::rollback_to") or cfg.call_blocks("rollback_to")
+    if not sgc:
+        return None, "solve_root_goal does not call solve_goal"
+    if not clear or not all(cfg.must_pass_blocks(b, clear) for b in sgc):
+        return None, "no Stack::clear on every path to solve_goal in solve_root_goal"
+    if not rb or not all(cfg.must_pass_blocks(b, rb) for b in sgc):
+        return None, "no SearchGraph::rollback_to on every path to solve_goal in solve_root_goal"
+    # the rollback target must be the first depth-first number (constant MIN / index 0), i.e. the whole graph
+    whole = False
+    for b in rb:
+        t = cfg.blocks[b]["t"]
+        args = t.get("a") or []
+        if len(args) >= 2:
+            tr = cfg.trace(args[1])
+            txt = repr(tr)
+            if "MIN" in txt or "index: 0" in txt:
+                whole = True
+    if not whole:
+        return None, "rollback_to in solve_root_goal is not to DepthFirstNumber::MIN"
+    # Stack::clear must empty the vector
+    sc = facts.body("chalk_recursive::fixed_point::stack::Stack::clear")
+    if sc is None or not has_call(sc.thir, "Vec::<T, A>::clear") and not has_call(sc.thir, "clear"):
+        return None, "Stack::clear does not clear the entries"
+    # who may enter solve_goal: the root entry, or a solve already running - the subgoal callback `<Solver as SolveDatabase>::solve_goal`,
+    # whose receiver (`recursive::Solver`) is constructed only inside SolverStuff::solve_iteration (i.e. below solve_new_subgoal)
+    CB = "<chalk_recursive::recursive::Solver as chalk_recursive::solve::SolveDatabase>::solve_goal"
+    outside = sorted({c[0] for c in cg.callers_of(lambda k: k == RC + "solve_goal") if c[0] not in (RC + "solve_root_goal", CB)})
+    if outside:
+        return None, "solve_goal is also entered from %s" % outside[:3]
+    nctor = 0
+    for k, b in cg.bodies.items():
+        for blk, j, st in b.cfg.agg_sites("chalk_recursive::recursive::Solver"):
+            nctor += 1
+            if "solve_iteration" not in k and not k.endswith("recursive::Solver::new"):
+                return None, "recursive::Solver is constructed in %s, outside a running iteration" % k
+    new_callers = sorted({c[0] for c in cg.callers_of(lambda k: k.endswith("chalk_recursive::recursive::Solver::new")) if "solve_iteration" not in c[0]})
+    if new_callers:
+        return None, "recursive::Solver::new is called from %s, outside a running iteration" % new_callers[:3]
+    if nctor == 0:
+        return None, "no construction site of recursive::Solver found"
+    ck.ok(R, "solve_root_goal:reset-at-entry", "Stack::clear + SearchGraph::rollback_to(MIN) dominate solve_goal; solve_goal has no other outside caller")
+    return "solve_root_goal: stack.clear(); search_graph.rollback_to(MIN)", None
+
+
 def run(ck, facts, tier):
     crates = ["chalk_ir", "chalk_solve", "chalk_engine", "chalk_recursive"]
     cg = CallGraph(facts, crates)
@@ -177,9 +230,14 @@ def run(ck, facts, tier):
                 region = cfg.reachable(u, (), True)
                 restored = any(b in region for b in pop) or any(
                     cfg.blocks[b]["t"]["k"] == "drop" and re.search(r"(Guard|Restore|Unwind)", cfg.blocks[b]["t"].get("ty", "")) for b in region)
+            # the other accepted discipline: every root entry discards whatever an unwound solve left behind
+            reset, why_not = root_entry_reset(ck, facts, cg, R)
             if restored:
                 ck.ok(R, "solve_goal:unwind-of-solve_new_subgoal", "the unwind path restores the stack")
+            elif reset:
+                ck.ok(R, "solve_goal:unwind-of-solve_new_subgoal", "not restored on unwind, but every root entry resets stack and search graph: " + reset)
             else:
                 ck.violation(R, "solve_goal:unwind-of-solve_new_subgoal", sg.where(cfg.blocks[sn[0]]["t"].get("ln")),
                              "when a database callback panics inside solve_new_subgoal the unwind path neither pops the stack nor rolls the search "
-                             "graph back (no drop guard): the next solve on this solver hits `assert!(self.stack.is_empty())` in solve_root_goal")
+                             "graph back (no drop guard), and the root entry does not discard the leftovers (%s): the next solve on this solver "
+                             "starts from a stack / search graph that still holds the unfinished goals" % why_not)
